@@ -1,4 +1,4 @@
 SPECIFICATION BSpec
-CONSTANTS MaxChrom = 3  MaxUnits = 1  Kinds = {"snp"}  EndKinds = {"tip"}  Defects = {"branch", "branchalt", "join", "cycle3", "cycle3in"}  MaxDefects = 2  MinUnits = 0  Pattern <- NoPattern  Wholes = {}
+CONSTANTS MaxChrom = 3  MaxUnits = 1  Kinds = {"snp"}  EndKinds = {"tip"}  Defects = {"branch", "branchalt", "branchref", "join", "cycle3", "cycle3in"}  MaxDefects = 2  MinUnits = 0  Pattern <- NoPattern  Wholes = {}
 INVARIANT LexSanity
 CHECK_DEADLOCK FALSE
